@@ -598,7 +598,14 @@ func c12PathIndexPositional(c *Ctx, pk *packages.Package) {
 		}
 		body := fr.Decl.Body
 		// classification of a local variable by all the ways it is written in this function
-		classifyVar := func(v types.Object) (string, bool) {
+		var classifyVar func(v types.Object) (string, bool)
+		classifying := map[types.Object]bool{}
+		classifyVar = func(v types.Object) (string, bool) {
+			if classifying[v] {
+				return "", false
+			}
+			classifying[v] = true
+			defer delete(classifying, v)
 			kind, decided := "", true
 			set := func(k string) {
 				if kind == "" || kind == k {
@@ -644,6 +651,13 @@ func c12PathIndexPositional(c *Ctx, pk *packages.Package) {
 							set("position") // constant start of a counter
 						} else if _, isIx := r.(*ast.IndexExpr); isIx {
 							set("value")
+						} else if id, isId := r.(*ast.Ident); isId && identObj(info, id) != nil && identObj(info, id) != v {
+							// a copy of another local (`indexFrom := int32(i)` with i the range key): what that one is
+							if k, d := classifyVar(identObj(info, id)); d {
+								set(k)
+							} else {
+								decided = false
+							}
 						} else {
 							decided = false
 						}
